@@ -55,7 +55,7 @@ func b2i(b bool) int64 {
 
 type tRing struct{ rb *ring.Buffer }
 
-func (t *tRing) write(p []byte) (sx.V, int64) { n, _ := t.rb.Write(p); return sx.N(int64(n)), -1 }
+func (t *tRing) write(p []byte) (sx.V, int64)     { n, _ := t.rb.Write(p); return sx.N(int64(n)), -1 }
 func (t *tRing) writev(bs [][]byte) (sx.V, int64) { panic("no writev on ring") }
 func (t *tRing) writeByte(c byte) (res sx.V, cap0 int64) {
 	defer func() {
@@ -83,7 +83,7 @@ func (t *tRing) read(k int) sx.V {
 	}
 	return sx.B(p[:n])
 }
-func (t *tRing) reset()                 { t.rb.Reset() }
+func (t *tRing) reset()                { t.rb.Reset() }
 func (t *tRing) obs() (int, int, bool) { return t.rb.Buffered(), t.rb.Len(), t.rb.IsEmpty() }
 
 type tERing struct {
@@ -124,7 +124,7 @@ func (t *tERing) read(k int) sx.V {
 	}
 	return sx.B(p[:n])
 }
-func (t *tERing) reset()                 { t.rb.Reset() }
+func (t *tERing) reset()                { t.rb.Reset() }
 func (t *tERing) obs() (int, int, bool) { return t.rb.Buffered(), t.rb.Len(), t.rb.IsEmpty() }
 
 type tEBuf struct {
@@ -148,9 +148,9 @@ func (t *tEBuf) writev(bs [][]byte) (sx.V, int64) {
 	return sx.N(int64(n)), taken(t.b.VerifRing(), inj)
 }
 func (t *tEBuf) writeByte(c byte) (sx.V, int64) { panic("no WriteByte on elastic.Buffer") }
-func (t *tEBuf) readByte() sx.V                  { panic("no ReadByte on elastic.Buffer") }
-func (t *tEBuf) peek(n int) sx.V                 { return chunks(t.b.Peek(n)...) }
-func (t *tEBuf) discard(n int) sx.V              { d, _ := t.b.Discard(n); return sx.N(int64(d)) }
+func (t *tEBuf) readByte() sx.V                 { panic("no ReadByte on elastic.Buffer") }
+func (t *tEBuf) peek(n int) sx.V                { return chunks(t.b.Peek(n)...) }
+func (t *tEBuf) discard(n int) sx.V             { d, _ := t.b.Discard(n); return sx.N(int64(d)) }
 func (t *tEBuf) read(k int) sx.V {
 	p := make([]byte, k)
 	n, _ := t.b.Read(p)
@@ -191,7 +191,7 @@ func taken(b *elastic.RingBuffer, inj *ring.Buffer) int64 {
 	return -1
 }
 
-func (t *tRing) setWant(int64)  {}
+func (t *tRing) setWant(int64)    {}
 func (t *tERing) setWant(w int64) { t.want = w }
 func (t *tEBuf) setWant(w int64)  { t.want = w }
 
